@@ -9,6 +9,13 @@ TABLE = [
      'small spaces. The oracle is the property statement itself. Quick R=8 (2.8M cases), thorough R=12.',
      'Small-scope: coincidences needing coordinates beyond R or more than 2-3 blacklist intervals are not covered. '
      'Blacklists are passed sorted, as blacklisted_binning_contigs does.'),
+    ('C03',
+     'bounded-exhaustive enumeration of whitelists x expansion k x ALL query strings through the real BarcodeParser, brute-force nearest-neighbour oracle',
+     'Every whitelist of <=3 barcodes of length 3 (thorough: also <=2 of length 4, 1 of length 5) over ACGTN, every k in 0..2 and every '
+     'query string of that length go through addBarcode/expand/getIndexCorrectedBarcodeAndHammingDistance; every file layout x gz x '
+     'eager/lazy loading; shipped whitelists against all 5^L queries (quick: 6-nt index list and the 8-nt DamID2 list; thorough: all '
+     'shipped lists <=8 nt and the 10-nt DamID2 list).',
+     'Whitelists are sets of equal-length ACGTN strings; geometry needing >3 barcodes is only covered through the shipped lists.'),
 ]
 
 # id -> reason it is currently not claimed
